@@ -77,6 +77,8 @@ func scenarios(tier string) []vlib.Scenario {
 		}
 	}
 	add(params{Streams: "up+down", Pending: "write", Failure: "closefail", Order: "streams-only", P: 1})
+	// a point still buffered when the connection is closed: its last flush must not follow the Disconnect
+	add(params{Streams: "up", Pending: "write", Failure: "none", Order: "conn-only", P: 2})
 	// the peer answers the Disconnect with a burst of calls and call acks nobody will consume any more
 	add(params{Streams: "none", Pending: "flood", Failure: "none", Order: "conn-only"})
 	add(params{Streams: "none", Pending: "flood", Failure: "none", Order: "conn-only", P: 1})
@@ -108,6 +110,15 @@ func config(sc vlib.Scenario, tier string) vsched.Config {
 	cfg := vsched.Config{Preempt: 1, Switch: 1, SelCase: 1, Stall: 1, Timer: -1, Horizon: 150 * time.Second, MaxSteps: 600000}
 	cfg.Budget[vsched.BudP] = p.P
 	cfg.Scope = func(site string) bool {
+		if p.Pending == "write" && p.Order == "conn-only" && p.P >= 2 {
+			// the last flush of a stream that is closed by the connection versus the Disconnect
+			for _, s := range []string{"flushLoop", "(*Upstream).flush", "sendChunkAndWaitAck", "SendUpstreamChunk", "iscp.(*Conn).close", "wire.(*ClientConn).Close", "SendDisconnect", "h:write:client"} {
+				if strings.Contains(site, s) {
+					return true
+				}
+			}
+			return false
+		}
 		for _, s := range []string{".Close", ".close", "closeWithError", "iscp.(*Conn).run", "iscp.(*Conn).reconnect", "ConnectWithConfig.func", "eventDispatcher", "OpenUpstream.func", "OpenDownstream.func", "(*Upstream).run", "(*Downstream).run", "flushAckLoop", "iscp.(*connStatus)", "(*Downstream).ReadDataPoints", "(*Downstream).ReadMetadata", "(*Upstream).resume", "(*Downstream).resume"} {
 			if strings.Contains(site, s) {
 				return true
